@@ -21,7 +21,7 @@ RULE = ("schemas with required fields (with and without defaults), schema-level 
         "are own required fields / schema validators of a disabled sub-configuration; inserted list items with a "
         "missing required field must be rejected; non-trivial = >= 1 returning call judged plus >= 1 further call (returning or raising); distinct = "
         "distinct (schema, calls)")
-REQUIRED = ("loads_with_empty_required_values", "reinsertions_of_invalidated_members", "calls_returned_judged", "calls_raised", "required_walks", "validator_log_checks", "collect_mode_compared",
+REQUIRED = ("schemas_with_sections_named_like_config_methods", "sections_shared_with_a_second_parent", "loads_with_empty_required_values", "reinsertions_of_invalidated_members", "calls_returned_judged", "calls_raised", "required_walks", "validator_log_checks", "collect_mode_compared",
             "exemption_cases_judged", "list_item_insertions_judged", "call:load_tree", "call:loads", "call:load", "call:validate",
             "flags_off_seen", "failing_validators_seen")
 ASSUMPTIONS = ["one-directional: nothing is demanded of calls that raise, except the exemption of disabled sub-configurations",
@@ -81,6 +81,15 @@ def generate(rng, ctx):
     schema = gen.gen_schema(rng, depth=rng.choice([1, 2, 3] if thorough else [1, 2, 2]), width=rng.choice([2, 3, 4]),
                             families=fams, defaults=0.45, dynamic=0.0)
     decorate(rng, schema)
+    # sections (and fields) may be named like methods of the Config class
+    if rng.random() < 0.3:
+        names = ["save", "load", "validate", "dumps", "loads", "to_tree", "load_tree"]
+        cand = [ch for ch in schema["fields"] if ch["kind"] in ("schema", "ctype")] or schema["fields"]
+        taken = {ch["key"] for ch in schema["fields"]}
+        free = [n for n in names if n not in taken]
+        if cand and free:
+            rng.choice(cand)["key"] = rng.choice(free)
+            schema["method_like_names"] = True
     env = gen.GEN_ENV
     calls = []
     for _ in range(rng.randrange(2, 9 if thorough else 6)):
@@ -104,6 +113,12 @@ def generate(rng, ctx):
                 call["item"] = gen.tree_for(rng, nd["item"], env, valid=True, partial=rng.choice([0.0, 0.5, 0.9]))
                 call["how"] = rng.choice(["append", "insert", "setitem", "reinsert", "reinsert"])
                 call["via"] = rng.choice(["setitem", "append", "insert", "slice"])
+        if call["call"] == "validate" and rng.random() < 0.5:
+            # before validating: a section of this configuration is also assigned to a second configuration of the schema
+            # (which becomes its parent), then one of its required fields is reset in place
+            secs = [p for p, nd in spec.walk(schema) if nd["kind"] in ("schema", "ctype") and "[]" not in p]
+            if secs:
+                call["share"] = rng.choice(secs)
         calls.append(call)
     return {"schema": schema, "calls": calls}
 
@@ -191,6 +206,9 @@ def run(case, ctx, res):
     drv = history.Driver(ctx, res, case["schema"], env)
     cfg, root, log = drv.cfg, drv.root, drv.built.log
     returned = raised = 0
+    if case["schema"].get("method_like_names"):
+        res.count("schemas_with_sections_named_like_config_methods")
+    twin = None
     for idx, call in enumerate(case["calls"]):
         kind = call["call"]
         mark = len(log)
@@ -199,6 +217,21 @@ def run(case, ctx, res):
             _insert(drv, res, call, idx)
             continue
         res.count("call:" + kind)
+        if call.get("share"):
+            try:
+                if twin is None:
+                    twin = cc.Config(drv.built.schema, key_filename=drv.keyfile)
+                sec = spec.get_path(cfg, call["share"])
+                if isinstance(sec, cc.Config):
+                    twin[call["share"]] = sec
+                    res.count("sections_shared_with_a_second_parent")
+                    nd = spec.node_at(root, call["share"])
+                    req = [ch["key"] for ch in model.stored_children(nd) if ch["kind"] == "field" and ch.get("params", {}).get("required")
+                           and ch["params"].get("default") is None and ch["family"] not in ("flag", "include")]
+                    if req:
+                        cc.reset_value(sec, req[0])
+            except Exception:
+                res.count("share_not_applicable")
         tree = copy.deepcopy(call.get("tree"))
         label = None
         if kind in ("load_tree", "loads", "load"):
